@@ -10,15 +10,16 @@
    What is NOT proved here (see checks/C07.json, statement_status):
    * "answers lookups and scans as an empty trie" is proved as "st.inner is the
      empty message; vars and levels keep their previous values"
-     (C07_empty_after_*_partial).  That every lookup and scan on the empty message
-     finds nothing needs Model.v's queries on a bit-level message; the oracle
-     checks it on the real code after every rejected load.
+     (C07_empty_after_*_partial) and, for GetID / Get / searchID run over that state
+     (EndToEnd.inst_getid etc.), as "not found for every query" (C07_*_answers_as_empty).
+     Scans on the emptied instance: oracle only.
    * that the archived legacy files ARE sequences of framed sections is checked by
      the correspondence (the model reads every fixture completely), not proved. *)
 From Coq.Strings Require Import String.
 From Coq Require Import List NArith ZArith Bool.
 From Coq.Strings Require Import Byte.
 From Slim Require Import Varint VarintProofs Proto ProtoProofs Semver Frame FrameProofs Instance InstanceProofs Wire WireProofs.
+From Slim Require Import Base Keys Model Msg EndToEnd EndToEndProofs.
 Import ListNotations.
 Open Scope N_scope.
 
@@ -104,6 +105,43 @@ Theorem C07_rejected_load_state_partial :
   i_inner _ _ st' = IMsg empty_slim /\ i_vars _ _ st' = i_vars _ _ st /\ i_levels _ _ st' = i_levels _ _ st.
 Proof. exact (rejected_load_state compat_gen cur_gen). Qed.
 Print Assumptions C07_rejected_load_state_partial.
+
+(* ---- the rejected load answers as an empty trie ------------------------------------------
+   GetID, Get and searchID run the way the Go code runs them over the instance state
+   (EndToEnd.inst_*: test st.inner.NodeTypeBM == nil first, only then read vars): after an
+   interrupted or incompatible load they answer -1 / not found / (-1,-1,-1) for EVERY query,
+   whatever stale vars and levels the instance still holds (also the nil vars left by
+   Reset).  Still PARTIAL for the scanners, which the oracle exercises on the real code. *)
+Theorem C07_cut_answers_as_empty :
+  forall (Levels : Type) (init_levels : slim -> Levels) (reset_levels : Levels)
+         (conv510 : slim -> slim) (conv3 : list byte -> list byte -> list byte -> slim)
+         (st : inst VarsT Levels) m s cut q fuel,
+  blen (ser_slim m) < two63 -> marshal_gen m = Some s -> (cut < length s)%nat ->
+  let st' := fst (step compat_gen cur_gen VarsT Levels ivars init_levels reset_levels conv510 conv3 st
+                       (OpUnmarshal (firstn cut s))) in
+  inst_getid Levels st' fuel q = Ok None /\
+  inst_get Levels st' fuel q = Ok NotFound /\
+  inst_searchid Levels st' fuel q = Ok (None, None, None).
+Proof.
+  intros Levels il rl c5 c3 st m s cut q fuel Hb Hm Hc st'. apply (emptied_answers Levels st st').
+  exact (empty_after_cut_gen VarsT Levels ivars il rl c5 c3 st m s cut Hb Hm Hc).
+Qed.
+Print Assumptions C07_cut_answers_as_empty.
+
+Theorem C07_incompatible_answers_as_empty :
+  forall (Levels : Type) (init_levels : slim -> Levels) (reset_levels : Levels)
+         (conv510 : slim -> slim) (conv3 : list byte -> list byte -> list byte -> slim)
+         (st : inst VarsT Levels) b q fuel,
+  (32 <= length b)%nat -> ~ listed (strip_nul (firstn 16 b)) ->
+  let st' := fst (step compat_gen cur_gen VarsT Levels ivars init_levels reset_levels conv510 conv3 st (OpUnmarshal b)) in
+  inst_getid Levels st' fuel q = Ok None /\
+  inst_get Levels st' fuel q = Ok NotFound /\
+  inst_searchid Levels st' fuel q = Ok (None, None, None).
+Proof.
+  intros Levels il rl c5 c3 st b q fuel Hl Hn st'. apply (emptied_answers Levels st st').
+  exact (empty_after_incompatible_gen VarsT Levels ivars il rl c5 c3 st b Hl Hn).
+Qed.
+Print Assumptions C07_incompatible_answers_as_empty.
 
 (* ---- the constants the model was written for, and concrete version strings ----------------- *)
 Definition s (x : String.string) : list byte := String.list_byte_of_string x.
